@@ -236,6 +236,16 @@ func genDistKeyGenerator(ctx context.Context, logger log.Logger, secrc chan kybe
 								reportErr(ctx, errc, err)
 								return
 							}
+							// A vss session id names the dealer by its key and a signed response does not
+							// cover the dealer's index: two seats with one key make approvals for one
+							// dealer pass for the other.
+							for k, other := range pubPoints {
+								if other != nil && uint32(k) != pubkey.Index && other.Equal(pubPoints[pubkey.Index]) {
+									err := &DKGError{err: errors.Errorf("genDistKeyGenerator failed for GID %s : %w", sessionID, ErrDupPubKey)}
+									reportErr(ctx, errc, err)
+									return
+								}
+							}
 						}
 
 						dkg, err := NewDistKeyGenerator(suite, sec, pubPoints, numOfPubkeys/2+1)
